@@ -297,10 +297,10 @@ Proof.
   - kp false. now apply keeps_del_uids.
   - kp false. unfold del_by_loc. apply keeps_fold; auto.
     intros; now apply del_uid_inv. intros; now apply keeps_del_uid.
-  - revert Hu'. unfold set_loc_uid. destruct (zidx u0 (uidmax s)); auto.
+  - revert Hu'. unfold set_loc_uid. destruct (zidx u0 (uidmax s)); auto. destruct (live s n); auto.
     intro Hu'. kp true. apply keeps_set_locs.
   - revert Hu'. unfold set_loc_col. destruct (zidx c (ncol s)); auto. unfold set_loc_uid.
-    destruct (zidx _ (uidmax s)); auto. intro Hu'. kp true. apply keeps_set_locs.
+    destruct (zidx _ (uidmax s)); auto. destruct (live s n0); auto. intro Hu'. kp true. apply keeps_set_locs.
   - revert Hu'. unfold set_locs_ids. destruct (ids_name s p false); auto.
     intro Hu'. kp true. apply keeps_set_locs.
   - kp true. apply keeps_set_locs.
@@ -364,19 +364,27 @@ Proof.
   rewrite nth_error_app1; auto. apply nth_error_Some. congruence.
 Qed.
 Lemma loc_set_loc1 x t' k s x' :
-  zidx x (uidmax s) = Some x' ->
+  zidx x (uidmax s) = Some x' -> live s x' = true ->
   loc (set_loc1 x (Some t') k s) t' = pad_set k x' (erase1 x' (loc s t')).
-Proof. intro E. unfold set_loc1. rewrite E. simpl. now rewrite Nat.eqb_refl. Qed.
+Proof. intros E El. unfold set_loc1. rewrite E, El. simpl. now rewrite Nat.eqb_refl. Qed.
+Lemma set_loc1_live x t k s u : live (set_loc1 x t k s) u = live s u.
+Proof.
+  destruct (set_loc1_table x t k s) as [_ [_ [_ [E _]]]]. unfold live, col_of_uid. now rewrite E.
+Qed.
 Lemma set_loc1_uidmax x t k s : uidmax (set_loc1 x t k s) = uidmax s.
 Proof. destruct (set_loc1_table x t k s) as [_ [_ [_ [E _]]]]. unfold uidmax. now rewrite E. Qed.
 Lemma set_loc1_before x t' k s u :
   before k u (loc s t') -> before (S k) u (loc (set_loc1 x (Some t') k s) t').
 Proof.
-  intro Hb. destruct (zidx x (uidmax s)) as [x'|] eqn:E.
-  - rewrite (loc_set_loc1 _ _ _ _ _ E). destruct (Nat.eq_dec u x') as [->|Hne].
-    + exists k. split; [lia|]. apply nth_error_pad_set_self.
-    + apply before_pad_set. now apply before_erase.
-  - unfold set_loc1. rewrite E. destruct Hb as [p [Hp Hn]]. exists p. split; auto.
+  intro Hb.
+  assert (Hsame : before (S k) u (loc s t')) by (destruct Hb as [p [Hp Hn]]; exists p; split; auto).
+  destruct (zidx x (uidmax s)) as [x'|] eqn:E.
+  - destruct (live s x') eqn:El.
+    + rewrite (loc_set_loc1 _ _ _ _ _ E El). destruct (Nat.eq_dec u x') as [->|Hne].
+      * exists k. split; [lia|]. apply nth_error_pad_set_self.
+      * apply before_pad_set. now apply before_erase.
+    + unfold set_loc1. now rewrite E, El.
+  - unfold set_loc1. now rewrite E.
 Qed.
 Lemma set_loc_seq_before us t' : forall k s u,
   before k u (loc s t') -> before (k + length us) u (loc (set_loc_seq us (Some t') k s) t').
@@ -385,28 +393,38 @@ Proof.
   - now rewrite Nat.add_0_r.
   - replace (k + S (length r)) with (S k + length r) by lia. apply IH. now apply set_loc1_before.
 Qed.
+Lemma live_lt s u : live s u = true -> u < uidmax s.
+Proof.
+  unfold live, col_of_uid, uidmax. intro H. apply nth_error_Some. destruct (nth_error (uidcol s) u); congruence.
+Qed.
 Lemma set_loc_seq_post us t' : forall k s u,
-  In (Z.of_nat u) us -> u < uidmax s -> In u (loc (set_loc_seq us (Some t') k s) t').
+  In (Z.of_nat u) us -> live s u = true -> In u (loc (set_loc_seq us (Some t') k s) t').
 Proof.
   induction us as [|x r IH]; intros k s u Hin Hu; simpl in *; try contradiction.
   destruct Hin as [->|Hin].
   - assert (Hb : before (S k) u (loc (set_loc1 (Z.of_nat u) (Some t') k s) t')).
-    { rewrite (loc_set_loc1 _ _ _ _ u) by now apply zidx_of_nat.
-      exists k. split; [lia|]. apply nth_error_pad_set_self. }
+    { rewrite (loc_set_loc1 _ _ _ _ u); auto. exists k. split; [lia|]. apply nth_error_pad_set_self.
+      apply zidx_of_nat. now apply live_lt. }
     destruct (set_loc_seq_before r t' _ _ _ Hb) as [p [_ Hp]]. eapply nth_error_In; eauto.
-  - apply IH; auto. now rewrite set_loc1_uidmax.
+  - apply IH; auto. now rewrite set_loc1_live.
 Qed.
+(* every designated uid of an existing column holds the requested role type afterwards, whatever the state *)
 Lemma set_locs_post s us t' k cl u :
-  In (Z.of_nat u) us -> u < uidmax s -> In u (loc (set_locs us (Some t') k cl s) t').
+  In (Z.of_nat u) us -> is_live s u -> In u (loc (set_locs us (Some t') k cl s) t').
 Proof.
   intros Hin Hu. unfold set_locs. apply set_loc_seq_post; auto.
-  destruct (clean_if_table cl (Some t') s) as [_ [_ [_ [E _]]]]. unfold uidmax. now rewrite E.
+  destruct (clean_if_table cl (Some t') s) as [_ [_ [_ [E _]]]]. unfold live, col_of_uid. rewrite E.
+  apply live_spec in Hu. exact Hu.
 Qed.
-
-Lemma cex_loop_counter :
-  Inv cex_index_state /\ ncol cex_index_state = 3 /\
-  loc_of_col (step cex_index_state (SetLocsCol [2%Z] (Some 1) 0 false)) 2 = None /\
-  loc_of_col (step cex_index_state (SetLocsCol [2%Z] (Some 1) 0 false)) 0 = Some (1, 0).
+(* setLocatorsByColIdx: every existing column designated by icols holds the requested role type afterwards *)
+Lemma set_locs_col_post s cs t' k cl c c' :
+  Inv s -> In c cs -> zidx c (ncol s) = Some c' ->
+  exists u, uid_of_col s c' = Some u /\ In u (loc (step s (SetLocsCol cs (Some t') k cl)) t').
 Proof.
-  split; [apply cex_index|]. vm_compute. repeat split; reflexivity.
+  intros H Hin Hc. pose proof (zidx_some _ _ _ Hc) as [Hlt _].
+  destruct (uid_of_col_ex s H c' Hlt) as [u Hu]. exists u. split; auto.
+  simpl. apply set_locs_post.
+  - unfold set_locs_col_uids. apply in_map_iff. exists c. split; auto.
+    unfold uid_of_col_z. rewrite Hc, Hu. reflexivity.
+  - exists c'. apply col_of_uid_some. now apply uid_of_col_some.
 Qed.
